@@ -76,6 +76,9 @@ PROBE_COMPUTEY = [
     ('free joint with frictionloss, Newton + noslip, sparse',
      '<mujoco><option solver="Newton" jacobian="sparse" noslip_iterations="3"/><worldbody><geom type="plane" size="1 1 .1"/>'
      '<body pos="0 0 .05"><joint type="free" frictionloss=".1"/><geom type="sphere" size=".1"/></body></worldbody></mujoco>'),
+    ('free joint with frictionloss, Newton, sparse, diagexact flag',
+     '<mujoco><option solver="Newton" jacobian="sparse"><flag diagexact="enable"/></option><worldbody><body>'
+     '<joint type="free" frictionloss="0.01"/><geom type="sphere" size=".1"/></body></worldbody></mujoco>'),
 ]
 PROBE_STATIC = [
     ('explicit pair floor / geom of a jointless body, default options (dense Jacobian, islands)',
@@ -100,7 +103,6 @@ def probes(ck, lib):
       except mj.MjError as e:
         ck.violation('valid model (%s) cannot be compiled / stepped: %s' % (what, e), dict(xml=xml), bucket=bucket,
                      fingerprint=fp)
-        break
 
 
 def main(ck):
@@ -154,7 +156,7 @@ def main(ck):
     a_ws = np.array(d0.qacc_warmstart, dtype=np.float64)
     labels = set()
     for (solver, island, jac, warm, tol, iters) in variants:
-      if solver == PGS and jac == E.mjJAC_SPARSE and redM:
+      if (solver == PGS or case.get('diagexact')) and jac == E.mjJAC_SPARSE and redM:
         # input class of known finding C10/computeY-simple-dof (probed separately): excluded by construction, counted
         labels.add('excluded:sparse-pgs-on-reduced-M')
         jac = E.mjJAC_DENSE
